@@ -209,8 +209,12 @@ def finishFEP (loc : List Row) (last : Option Row) (p : Params) (retry : Nat) : 
             bridges := p.bridges, claims := p.claims, status := .pending } retry p.to_
 
 /-- `verifyBuildParamsAndGenerateProof` + `BuildCertificate`; the prover call consumes the scripted behaviour -/
-def proveAndBuild (loc : List Row) (last : Option Row) (p : Params) (retry : Nat) (prover : Prover) : Build × Prover :=
+def proveAndBuild (loc : List Row) (last : Option Row) (p : Params) (retry : Nat) (prover : Prover) (optOn : Bool := false) :
+    Build × Prover :=
   if p.retry && decide (some p.from_ ≠ last.map (·.from_)) then (.err, prover)
+  -- the optimistic request is signed over the new local exit root, which needs the height and previous root first:
+  -- when those cannot be determined the build fails before the prover is asked
+  else if optOn && (nextHeightPrev loc last).isNone then (.err, prover)
   else match prover with
     | .fail => (.err, .ok 0)
     | .notYet => (.none, .ok 0)
@@ -235,7 +239,7 @@ def buildFEP (size : Params → Nat) (cfg : Cfg) (l2 : List L2Blk) (loc : List R
     let p : Params := { from_ := r.from_, to_ := r.to_, bridges := bridgesIn l2 r.from_ r.to_, claims := claimsIn l2 r.from_ r.to_,
                         fep := true, retry := true }
     if r.hasProof then (finishFEP loc last p (r.retry + 1), prover)
-    else proveAndBuild loc last p (r.retry + 1) prover
+    else proveAndBuild loc last p (r.retry + 1) prover optOn
   | Option.none =>
     let (prevTo, retry) := lastSentBlockAndRetry cfg.start last
     let lp := lastProcessed l2
@@ -248,7 +252,7 @@ def buildFEP (size : Params → Nat) (cfg : Cfg) (l2 : List L2Blk) (loc : List R
       | Option.none => (.err, prover)
       | some p =>
         let p := { p with from_ := lastProven cfg.start p.from_ last + 1 }
-        proveAndBuild loc last p retry prover
+        proveAndBuild loc last p retry prover optOn
 
 def rowOfCert (c : ACert) (retry toBlock : Nat) (hasProof : Bool := false) : Row :=
   { height := c.height, id := c.id, status := .pending, from_ := c.from_, to_ := toBlock, retry := retry,
@@ -319,6 +323,16 @@ def tick (size : Params → Nat) (s : Sys) (epoch crash : Bool) : Sys × SendOut
     let (s, p) := poll s
     let go := if epoch then !p.pending else (!p.pending && p.newInError && s.cfg.retry)
     let (s, o) := if go then send size s crash else (s, .none)
+    ({ s with failHdr := false, failSub := false }, o)
+
+/-- an epoch tick during which the read of the node's last certificate fails (a transient storage failure on the one
+    `SELECT … ORDER BY height DESC LIMIT 1` the build starts from): the status poll runs as usual; when it leaves the
+    way free the build fails at that read, so nothing is submitted and nothing more changes -/
+def tickUnreadable (s : Sys) : Sys × SendOut :=
+  if !s.up then (s, .none)
+  else
+    let (s, p) := poll s
+    let o : SendOut := if !p.pending then .err else .none
     ({ s with failHdr := false, failSub := false }, o)
 
 /-! ### start-up reconciliation -/
@@ -404,6 +418,7 @@ inductive Op where
   | failHdr | failSub | failRec
   | prover (p : Prover)
   | opt (on : Bool)   -- the rollup contract's optimistic-mode flag changes
+  | epochUnreadable   -- an epoch tick while the certificate table cannot be read
   | crash
   | losedb
   | restart
@@ -420,6 +435,7 @@ def step (size : Params → Nat) (s : Sys) : Op → Sys
   | .failRec => { s with failRec := true }
   | .prover p => { s with prover := p }
   | .opt b => { s with optOn := b }
+  | .epochUnreadable => (tickUnreadable s).1
   | .crash => { s with up := false }
   | .losedb => { s with up := false, loc := [] }
   | .restart => ({ (restart s).1 with failRec := false, failHdr := false })
